@@ -198,7 +198,8 @@ def reachable_cmds(desc, roots):
 class Prediction:
     def __init__(self):
         self.files = {}     # path -> bytes expected after a clean build
-        self.kinds = {}     # path -> 'file' | 'dir' | 'symlink:<target>'
+        self.kinds = {}     # path -> 'file' | 'dir' | 'symlink:<target>' | 'archive'
+        self.archives = {}  # path -> [(member name, bytes)] in order
         self.fails = {}     # command name -> reason (missing input, ...)
 
 
@@ -228,7 +229,7 @@ def predict(desc, roots, read_source, environ=None):
             p = desc.producer(i)
             if p is not None and p.name in pr.fails:
                 failed = "input %s failed" % i
-            elif p is None and read_source(i) is None and c.tool in ("shell", "phony") and c.attrs.get("allow-missing-inputs") != "true":
+            elif p is None and read_source(i) is None and c.tool in ("shell", "phony", "archive") and c.attrs.get("allow-missing-inputs") != "true":
                 failed = "missing input %s" % i
         if failed:
             pr.fails[c.name] = failed
@@ -260,6 +261,15 @@ def predict(desc, roots, read_source, environ=None):
             for o in c.outputs:
                 cur[o] = "dir"
                 pr.kinds[o] = "dir"
+        elif c.tool == "archive":
+            members = []
+            for i in c.inputs:
+                if not is_virtual(i) and not i.endswith("/"):
+                    members.append((os.path.basename(i), content_of(i)))
+            for o in c.outputs:
+                if not is_virtual(o):
+                    pr.kinds[o] = "archive"
+                    pr.archives[o] = members
         elif c.tool == "symlink":
             for o in c.outputs:
                 pr.kinds[o] = "symlink:" + c.contents
@@ -386,7 +396,7 @@ def build(sb, flavor="asan", target=None, jobs=None, db="build.db", extra_env=No
 
 
 # ------------------------------------------------------------------ description generator
-def gen_desc(rnd, ncmds=None, tools=("shell", "shell", "shell", "shell", "phony", "mkdir", "symlink"), virtuals=True, multi_out=True, virtual_out_p=0.2, virtual_in_p=0.3):
+def gen_desc(rnd, ncmds=None, tools=("shell", "shell", "shell", "shell", "shell", "phony", "mkdir", "symlink", "archive"), virtuals=True, multi_out=True, virtual_out_p=0.2, virtual_in_p=0.3):
     """Random acyclic bipartite graph of commands over source files, produced files and virtual nodes.
     Premises kept: one producer per node, acyclic, sources exist (created by the caller from desc.sources)."""
     d = Desc()
@@ -428,6 +438,18 @@ def gen_desc(rnd, ncmds=None, tools=("shell", "shell", "shell", "shell", "phony"
             c.inputs = [x for x in c.inputs if is_virtual(x)]
             c.outputs = ["dirs/d%d" % i]
             avail_files += c.outputs   # consumed as a plain node: only its existence matters to the helper
+        elif tool == "archive":
+            # members: plain files (sources or outputs of shell commands) with distinct base names; the archive itself is not
+            # offered as an input (its bytes carry time stamps)
+            virt = [x for x in c.inputs if is_virtual(x)]
+            files = [x for x in avail_files if not x.startswith("dirs/")]
+            rnd.shuffle(files)
+            members, seen = [], set()
+            for f in files:
+                if os.path.basename(f) not in seen and len(members) < 3:
+                    members.append(f); seen.add(os.path.basename(f))
+            c.inputs = members[:rnd.randint(1, max(1, len(members)))] + virt
+            c.outputs = ["out/lib%d.a" % i]
         elif tool == "symlink":
             c.inputs = [x for x in c.inputs if is_virtual(x)]
             c.outputs = ["links/l%d" % i]
